@@ -72,7 +72,9 @@ type Rel struct {
 func (r Rel) String() string { return r.L + " " + r.Op + " " + r.R }
 
 // relOf normalises cond (holding on its TRUE edge). ok=false if not a comparison.
-func relOf(e ast.Expr) (Rel, bool) {
+func relOf(e ast.Expr) (Rel, bool) { return relOfWith(e, exprKey) }
+
+func relOfWith(e ast.Expr, keyOf func(ast.Expr) string) (Rel, bool) {
 	neg := false
 	for {
 		e = ast.Unparen(e)
@@ -106,7 +108,7 @@ func relOf(e ast.Expr) (Rel, bool) {
 			return Rel{}, false
 		}
 	}
-	l, r := exprKey(b.X), exprKey(b.Y)
+	l, r := keyOf(b.X), keyOf(b.Y)
 	switch op {
 	case token.LSS:
 		return Rel{l, "<", r}, true
@@ -146,6 +148,26 @@ func (f *FuncCFG) RelEdges(want func(Rel) bool) []Edge {
 	var out []Edge
 	f.forEachEdgeFact(func(e Edge, b *cfg.Block, ft fact) {
 		r, ok := relOf(ft.Atom)
+		if !ok {
+			return
+		}
+		if !ft.Pol {
+			r = negRel(r)
+		}
+		if want(r) {
+			out = append(out, e)
+		}
+	})
+	return out
+}
+
+// RelEdgesAt is RelEdges with both sides rendered by KeyAt at the branch (temporaries, helper
+// parameters and single-return helpers resolved).
+func (f *FuncCFG) RelEdgesAt(want func(Rel) bool) []Edge {
+	var out []Edge
+	f.forEachEdgeFact(func(e Edge, b *cfg.Block, ft fact) {
+		pt := Point{b, len(b.Nodes) - 1}
+		r, ok := relOfWith(ft.Atom, func(x ast.Expr) string { return f.KeyAt(x, pt) })
 		if !ok {
 			return
 		}
